@@ -342,6 +342,81 @@ fn matrix(rng: &mut Rng, cfg: &CfgLine, keys: &BTreeSet<String>, tables: &Tables
     out
 }
 
+/// Key-management requests whose persistence step fails once (an injected fault on the PUT of the
+/// primary's metadata object), the identical retry, then a crash or a clean restart — after which the
+/// complete matrix is replayed against the acknowledged bindings. After a failure that is NOT retried
+/// the process is always stopped at once: a failed `set` followed by *other* management calls is the
+/// separately recorded finding `ack-not-durable:failed-set-resurfaces` (corpus 12, notes/C14.md).
+fn fault_scenarios(g: &mut Gen, out: &mut Vec<Op>) {
+    let cfg = g.cfg.clone();
+    let rounds = 1 + g.rng.below(3);
+    for _ in 0..rounds {
+        let n = *g.rng.pick(&[NAME_A, NAME_A, NAME_B, NAME_C]);
+        let kind = g.rng.below(6);
+        // which PUT of the primary's metadata fails: the first one, rarely the second (a request that does
+        // only one such PUT then passes and the fault hits the retry instead); db.create with a key does up to three
+        // (a FAILED request for a server-generated key leaves a key nobody knows in the engine's copy: it is
+        // only generated where the failure is the first attempt and a clean restart cannot persist it)
+        let k = if kind == 5 { g.rng.below(3) as usize } else if kind != 2 && g.rng.chance(1, 6) { 1 } else { 0 };
+        // make sure the database exists (and sometimes carries a key to revoke / rotate away)
+        let f0 = g.fresh();
+        let key0 = if g.rng.chance(2, 3) { Some(g.new_key(n)) } else { None };
+        out.push(admin_req(&cfg, "db.connect", Some(n), None, &f0));
+        if let Some(k0) = &key0 {
+            let f = g.fresh();
+            out.push(admin_req(&cfg, "db.set_api_key", Some(n), Some(k0), &f));
+        }
+        let mk = |g: &mut Gen| -> Op {
+            let f = g.fresh();
+            match kind {
+                0 | 1 => {
+                    let nk = g.new_key(n);
+                    admin_req(&cfg, "db.set_api_key", Some(n), Some(&nk), &f)
+                }
+                2 => {
+                    g.keys.insert(f.clone());
+                    admin_req(&cfg, "db.set_api_key", Some(n), None, &f)
+                }
+                3 | 4 => admin_req(&cfg, "db.remove_api_key", Some(n), None, &f),
+                _ => {
+                    let nk = g.new_key(NAME_MISSING);
+                    admin_req(&cfg, "db.create", Some(NAME_MISSING), Some(&nk), &f)
+                }
+            }
+        };
+        let first = mk(g);
+        out.push(Op::Fault(k));
+        out.push(first.clone());
+        let retried = g.rng.chance(3, 4);
+        if retried {
+            // identical retry (same parameters; a generated key is a fresh one by nature)
+            let again = match (&first, kind) {
+                (Op::Req(r), 2) => {
+                    let mut r = r.clone();
+                    let f = g.fresh();
+                    g.keys.insert(f.clone());
+                    if let Body::Rpc { fresh, .. } = &mut r.body {
+                        *fresh = f;
+                    }
+                    Op::Req(r)
+                }
+                _ => first.clone(),
+            };
+            out.push(again);
+        }
+        out.push(Op::NoFault);
+        if kind == 2 && !retried {
+            out.push(Op::Crash);
+            continue;
+        }
+        match (retried, g.rng.below(4)) {
+            (false, 0 | 1) | (true, 0 | 1) => out.push(Op::Crash),
+            (false, _) | (true, 2) => out.push(Op::Restart),
+            _ => {}
+        }
+    }
+}
+
 /// Every Read-labelled method (both encodings), as the admin, on database A in each lifecycle state:
 /// warm, cold after close/open, cold after a clean restart, database read-only, collection
 /// read-only, dirty after a crash (first touch runs the recovery), closed.
@@ -419,6 +494,9 @@ fn gen_case(rng: &mut Rng, tables: &Tables, thorough: bool) -> Vec<String> {
     for _ in 0..len {
         g.history_op(&mut ops);
     }
+    if g.cfg.admin.is_some() && g.rng.chance(1, 2) {
+        fault_scenarios(&mut g, &mut ops);
+    }
     let keys = g.keys.clone();
     let mut fb = 500;
     if g.rng.chance(1, 2) {
@@ -494,6 +572,14 @@ pub fn run_case(lines: &[String], driver: Option<&std::path::Path>, tables: &Tab
                 if let Some(w) = world.as_mut() {
                     let ok = w.install_fixture(n);
                     res.hit(if ok { "op:fixture" } else { "op:fixture-skipped" });
+                }
+            }
+            Op::NoFault => {
+                if let Some(w) = world.as_mut() {
+                    w.disarm_fault();
+                    if let Some(m) = model.as_mut() {
+                        m.ask(line);
+                    }
                 }
             }
             Op::Fault(k) => {
